@@ -73,6 +73,9 @@ def observe(spec: Dict[str, Any], dispatcher: Any = None, text: Optional[str] = 
         kw = dict(dispatcher_kwargs)
         if 'max_batch_size' in spec:
             kw['max_batch_size'] = spec['max_batch_size']
+        if spec.get('codec', 'default') != 'default':
+            from pbt import codecs
+            kw.update(codecs.kwargs_for(spec['codec'], 'server'))
         dispatcher = hm.build_dispatcher(kind, registry_of(spec), **kw)
     obs = Observation()
     obs.request_text = docs.render(spec['text']) if text is None else text
